@@ -1,3 +1,4 @@
+import Driver.Loop
 import OPM.Model.Wire
 import OPM.Model.EngineId
 namespace Driver.EngineId
@@ -30,3 +31,5 @@ def step (_ : Unit) (line : String) : Unit × String :=
   | _ => ((), "bad-op")
 
 end Driver.EngineId
+
+def main : IO Unit := Driver.runLoop () Driver.EngineId.step
